@@ -454,6 +454,8 @@ def write_evidence(prop, tier, seed, results, jobs, wall, pool, info, selftest, 
                    known_hits, t_runs=None, note=None):
   ok = [r for r in results if r and r.get('status') in ('ok', 'violation', 'inconclusive')]
   nt = set(r.get('nontrivial') for r in ok if r.get('nontrivial'))
+  for r in ok:
+    nt.update(r.get('nontrivial_set') or [])
   fk = {}
   probes = {}
   stats = {}
@@ -484,14 +486,14 @@ def write_evidence(prop, tier, seed, results, jobs, wall, pool, info, selftest, 
       points_fired.add((f[0], f[1], f[2].split(':')[0]))
   samples = []
   for j, r in list(zip(jobs, results)):
-    if r and r.get('nontrivial') and len(samples) < 3:
+    if r and (r.get('nontrivial') or r.get('nontrivial_set')) and len(samples) < 3:
       samples.append({'run': [j['sub'], j['index']], 'threads': r.get('threads'),
                       'steps': r.get('steps'), 'switches': r.get('switches'),
                       'faults_fired': r.get('faults_fired'),
                       'schedule_prefix': r.get('schedule', [])[:12],
                       'history': r.get('trace'), 'digest': r.get('digest'),
-                      'plan_excerpt': json.loads(json.dumps(r.get('plan')))['threads'][:1]
-                      if isinstance(r.get('plan'), dict) and 'threads' in r['plan'] else None})
+                      'plan_excerpt': (r['plan']['threads'][:1] if 'threads' in r['plan'] else r['plan'].get('ops', [])[:6])
+                      if isinstance(r.get('plan'), dict) else None})
   if not samples and ok:
     r = ok[0]
     samples.append({'steps': r.get('steps'), 'history': r.get('trace'), 'digest': r.get('digest')})
